@@ -7,6 +7,11 @@ from checkcfg import PROPS
 BASELINE = json.load(open('/root/.vp/BASELINE.json'))['cmd'] if os.path.exists('/root/.vp/BASELINE.json') else ''
 
 TEXT = {
+ "C07": dict(
+   technique="property-based testing (rapid) with generated schedules of rescan sections vs chain changes; oracle = differential against the live-watching original wallet + independent ledger/lifecycle model",
+   text="Instance A watches wallet W live through a generated history (addresses with gaps, standard / staking / binding payments and spends, reorgs, lagging notifications). At a drawn moment instance B (fresh database, same simulated node, caught up) imports W from the mnemonic with an index hint 0..issued, or from A's exported keystore. From then on the generator interleaves B's rescan sections (the real worker goroutine, one suspended section per step) with new blocks, reorganisations below/above the rescan cursor, payments to the restored addresses and notifications delivered to A and B in any order; thorough also inserts > 1000 quiet blocks so the rescan spans several batches. Until the rescan finishes B must list W as importing and refuse to select it (unready error); at quiescence B's unspent outputs, balances, addresses-with-history and mined staking/binding records must equal A's (string-wise differential of the full listing) and both must equal the chain model. Exploration: sampled schedules.",
+   note="Payments generated during the rescan go to addresses the restored wallet holds (an address the original issued that had no history at restore time is not part of the restored wallet until requested again). Pending (unconfirmed) entries are not compared between A and B (B cannot know A's mempool history). Gap limit 20 with <= 6 addresses, so the restore scan always covers every issued index.",
+   ref="DESIGN.md §3 C07"),
  "C04": dict(
    technique="stateful property-based testing (rapid state machine) across several wallet instances; oracle = independent BIP-39/BIP-32 derivation + cross-instance differential + ECDSA verification of signatures under the address keys",
    text="Up to 3 fresh wallet instances (own LevelDB directories, one simulated node) run generated sequences of create (random entropy), import-mnemonic (generated entropy of the five sizes, leading-zero bias, index hints), new addresses of both classes, export + import-keystore elsewhere, restart, public-passphrase change (keystore level) and remove. After every step the wallet id and the address at every index are compared with the harness's own derivation m/44'/coin'/1'/0/i from (mnemonic, passphrase) through the independent references - hence with each other across instances - and SignHash for every issued address (right after issuing from public-only material, after restart, after import) must verify under exactly the public key that address commits to. Exploration: sampled sequences.",
